@@ -230,7 +230,7 @@ PROPS.update({
         rule="multi-module models x shutdown/restart faults (from handlers, on n-th receive, several victims, up to 3 cycles each); "
              "distinct = distinct program hash; non-trivial = a shutdown happened and a message or timer fell strictly inside the downtime",
         fault_probes=["shutdown_cycles", "restart_completed", "message_or_timer_inside_downtime"],
-        expected_probes=["shutdown_cycles", "restart_completed", "message_or_timer_inside_downtime"],
+        expected_probes=["shutdown_cycles", "restart_completed", "message_or_timer_inside_downtime", "joined_task_of_a_module_that_was_shut_down", "observing_element_on_a_module_that_was_shut_down"],
         assumptions=["only latency-only channel hops are predicted (busy channels are C07's subject)", "sampled, not exhaustive"]),
     "C13": net_prop(
         engine="net+asy",
